@@ -80,6 +80,7 @@ func c21Body(sc c21Scenario) func(s *sched.Sched) {
 			stores = append(stores, c21NewStore(cli, c21Meta(0)))
 		}
 		acked := map[string]int{} // topic -> largest acknowledged partition count
+		acker := map[string]int{} // topic -> broker index that acknowledged that count
 		deleted := map[string]bool{}
 		for _, q := range sc.Seqs {
 			if strings.Contains(q, "D") {
@@ -89,36 +90,59 @@ func c21Body(sc c21Scenario) func(s *sched.Sched) {
 				deleted["t2"] = true
 			}
 		}
-		ack := func(topic string, n int) {
+		ack := func(topic string, n int, broker int) {
 			if n > acked[topic] {
 				acked[topic] = n
+				acker[topic] = broker
 			}
 		}
 		if sc.Initial > 0 {
-			ack("t1", sc.Initial)
+			ack("t1", sc.Initial, -1)
+		}
+		// monitor: the broker that acknowledged a creation/growth must keep serving it at
+		// every later step (other brokers may lag behind their watch stream)
+		type forgotT struct{ broker, n int }
+		forgot := map[string]forgotT{}
+		s.StepHook = func() {
+			for topic, n := range acked {
+				b, ok := acker[topic]
+				if !ok || b < 0 || deleted[topic] {
+					continue
+				}
+				m, err := stores[b].Metadata(context.Background(), nil)
+				if err != nil {
+					continue
+				}
+				if got := c21Counts(m)[topic]; got < n {
+					if _, seen := forgot[topic]; !seen {
+						forgot[topic] = forgotT{broker: b, n: n}
+					}
+				}
+			}
 		}
 		for i, q := range sc.Seqs {
 			st := stores[i]
 			q := q
+			i := i
 			s.Go(fmt.Sprintf("B%d", i+1), func() {
 				ctx := context.Background()
 				for _, op := range []byte(q) {
 					switch op {
 					case 'C':
 						if _, err := st.CreateTopic(ctx, TopicSpec{Name: "t1", NumPartitions: 1, ReplicationFactor: 1}); err == nil {
-							ack("t1", 1)
+							ack("t1", 1, i)
 						}
 					case 'c':
 						if _, err := st.CreateTopic(ctx, TopicSpec{Name: "t2", NumPartitions: 1, ReplicationFactor: 1}); err == nil {
-							ack("t2", 1)
+							ack("t2", 1, i)
 						}
 					case 'G':
 						if err := st.CreatePartitions(ctx, "t1", 2); err == nil {
-							ack("t1", 2)
+							ack("t1", 2, i)
 						}
 					case 'H':
 						if err := st.CreatePartitions(ctx, "t1", 3); err == nil {
-							ack("t1", 3)
+							ack("t1", 3, i)
 						}
 					case 'D':
 						_ = st.DeleteTopic(ctx, "t1")
@@ -149,6 +173,36 @@ func c21Body(sc c21Scenario) func(s *sched.Sched) {
 		} else {
 			views["etcd"] = map[string]int{}
 		}
+		// who wrote the snapshot that dropped / shrank a topic? (mechanism classifier)
+		culprit := func(topic string, n int) string {
+			had := false
+			for _, op := range srv.Ops() {
+				if op.Key != snapshotKey() || (op.Op != "Put" && op.Op != "TxnPut") {
+					continue
+				}
+				var m ClusterMetadata
+				if json.Unmarshal([]byte(op.Value), &m) != nil {
+					continue
+				}
+				got := c21Counts(&m)[topic]
+				if got >= n {
+					had = true
+				} else if had {
+					return op.Who
+				}
+			}
+			return ""
+		}
+		for topic, f := range forgot {
+			if !deleted[topic] {
+				who := culprit(topic, f.n)
+				mech := "acking-broker-forgot-acked-topic"
+				if who != "" && who != fmt.Sprintf("b%d", f.broker+1) {
+					mech = "acking-broker-forgot-after-foreign-overwrite"
+				}
+				s.Fail(mech, "broker b%d acknowledged %s with %d partitions and later served fewer (overwriting snapshot writer: %q)", f.broker+1, topic, f.n, who)
+			}
+		}
 		names := make([]string, 0, len(views))
 		for v := range views {
 			names = append(names, v)
@@ -160,10 +214,16 @@ func c21Body(sc c21Scenario) func(s *sched.Sched) {
 			}
 			for _, v := range names {
 				got, ok := views[v][topic]
+				who := culprit(topic, n)
+				own := who != "" && acker[topic] >= 0 && who == fmt.Sprintf("b%d", acker[topic]+1)
+				suffix := ""
+				if own {
+					suffix = ":overwritten-by-acking-broker"
+				}
 				if !ok {
-					s.Fail("acked-topic-lost", "topic %s (acked with %d partitions) missing in %s; views=%v", topic, n, v, views)
+					s.Fail("acked-topic-lost"+suffix, "topic %s (acked with %d partitions) missing in %s (snapshot overwritten by %q); views=%v", topic, n, v, who, views)
 				} else if got < n {
-					s.Fail("acked-growth-lost", "topic %s acked with %d partitions but %s has %d; views=%v", topic, n, v, got, views)
+					s.Fail("acked-growth-lost"+suffix, "topic %s acked with %d partitions but %s has %d (snapshot overwritten by %q); views=%v", topic, n, v, got, who, views)
 				}
 			}
 		}
@@ -177,7 +237,12 @@ func c21Body(sc c21Scenario) func(s *sched.Sched) {
 
 func c21Scenarios(thorough bool) []c21Scenario {
 	var out []c21Scenario
-	add := func(init int, a, b string) { out = append(out, c21Scenario{Initial: init, Seqs: []string{a, b}}) }
+	add := func(init int, a, b string) {
+		if !thorough && len(a)+len(b) > 3 {
+			return // quick: at most three operations in total
+		}
+		out = append(out, c21Scenario{Initial: init, Seqs: []string{a, b}})
+	}
 	// absent t1: creations on both brokers
 	al0 := []byte{'C', 'c', 'G', 'D'}
 	var seq0 []string
@@ -217,22 +282,37 @@ func c21Scenarios(thorough bool) []c21Scenario {
 			add(1, a, b)
 		}
 	}
+	// one active broker (the other only watches), three operations
+	al3 := []byte{'C', 'c', 'G', 'd'}
+	enum.Sequences(len(al3), 3, func(idx []int) bool {
+		if len(idx) != 3 {
+			return true
+		}
+		b := make([]byte, 3)
+		for i, v := range idx {
+			b[i] = al3[v]
+		}
+		add(0, string(b), "")
+		return true
+	})
 	return out
 }
 
 func TestVerifC21(t *testing.T) {
 	rep := vh.New(t, "C21")
 	defer rep.Finish()
-	rep.Rule = "broker half: for every pair of admin op sequences (<=2 ops each over create t1/t2, grow t1, delete) on two real EtcdStores sharing a fake etcd, from 'no topics' and from 't1 with 1 partition': DFS over interleavings at persistMu/etcd-operation/watch-delivery granularity (preemption bound); at quiescence every acknowledged, never-deleted topic must be present in both brokers' Metadata and in the etcd snapshot with >= the acknowledged partition count. operator half: exhaustive mergeSnapshots inputs. distinct = distinct (acked, views) per scenario; non-trivial = >=1 thread switch"
+	rep.Rule = "broker half: for every pair of admin op sequences (<=2 ops each over create t1/t2, grow t1, delete) on two real EtcdStores sharing a fake etcd, from 'no topics' and from 't1 with 1 partition': DFS over interleavings at persistMu/etcd-operation/watch-delivery granularity (delay bound: every deviation from the default thread order counts); at quiescence every acknowledged, never-deleted topic must be present in both brokers' Metadata and in the etcd snapshot with >= the acknowledged partition count. operator half: exhaustive mergeSnapshots inputs. distinct = distinct (acked, views) per scenario; non-trivial = >=1 thread switch"
 	rep.Assumptions = []string{"stores are constructed like NewEtcdStore minus the dial (in-package mirror)", "fake etcd stands for etcd", "topics for which any delete is issued in the scenario are not judged"}
 	P := 2
 	if vh.Thorough() {
 		P = 3
 	}
-	rep.SetInfo("preemption_bound", P)
+	rep.SetInfo("delay_bound", P)
 	deadline := vh.Deadline()
 	shard, n := vh.Shard()
-	cfg := sched.Config{MaxPreempt: P, MaxDev: 0, Deadline: deadline, MaxIdle: 1, IdleStep: time.Millisecond}
+	// delay bounding: with two watch pumps and two watcher goroutines next to the two
+	// brokers, switches at blocking points alone make the preemption-bounded space explode
+	cfg := sched.Config{MaxPreempt: P, MaxDev: 0, Deadline: deadline, MaxIdle: 1, IdleStep: time.Millisecond, DelayBound: true}
 	var rp struct {
 		Scenario c21Scenario
 		Choices  []int
@@ -279,6 +359,9 @@ func TestVerifC21(t *testing.T) {
 // c21Key refines a violation key by mechanism: whether both brokers wrote (cross-broker
 // blind snapshot put) or a single broker lost its own update to its watcher refresh.
 func c21Key(key string, sc c21Scenario) string {
+	if strings.Contains(key, "overwritten-by-acking-broker") || strings.HasPrefix(key, "acking-broker-forgot") || key == "deadlock" || key == "harness" {
+		return key
+	}
 	writers := 0
 	for _, q := range sc.Seqs {
 		if q != "" {
